@@ -15,6 +15,12 @@ pub trait KKTSolver<T: FloatT>: HasLinearSolverInfo {
     ) -> bool;
     fn update_P(&mut self, P: &CscMatrix<T>);
     fn update_A(&mut self, A: &CscMatrix<T>);
+
+    /// verification hook: (KKT values, map.P, map.A) of the live solver
+    #[cfg(clarabel_verif)]
+    fn verif_kkt_values(&self) -> Option<(Vec<T>, Vec<usize>, Vec<usize>)> {
+        None
+    }
 }
 
 pub trait HasLinearSolverInfo {
